@@ -237,6 +237,21 @@ func genCase(rng *rand.Rand) rcase {
 	for i := 0; i < n; i++ {
 		c.Paths = append(c.Paths, genPath(rng))
 	}
+	// add-path siblings: a further path of the route that differs from the first one only in next hop, source and
+	// path identifier (two paths of one prefix learned from the same route reflector / route server)
+	if n >= 2 && c.Paths[0].BGP && rng.IntN(2) == 0 {
+		t := c.Paths[0]
+		switch rng.IntN(3) {
+		case 0:
+			t.NH = genIP(rng)
+		case 1:
+			t.Source = genIP(rng)
+		default:
+			t.NH, t.Source = genIP(rng), genIP(rng)
+		}
+		t.PathID = c.Paths[0].PathID + 1
+		c.Paths[n-1] = t
+	}
 	return c
 }
 
@@ -547,7 +562,7 @@ func check(c rcase, fs *fieldStats, viol func(clause string, f map[string]string
 
 func main() {
 	vf.Main("C34", "exploration", func(r *vf.Run) {
-		r.Rule("PRNG routes: IPv4/IPv6 prefix of any length (incl. 0.0.0.0, ::, v4-mapped, all-ones), 0-3 paths, 3/4 BGP and 1/4 static; every scalar from {0, max, small, power of two, random}; AS_PATH 0-3 segments (sequence/set, 0-4 ASNs), CLUSTER_LIST, communities, large communities, unknown attributes each nil / empty / 1-4 entries (unknown attribute values nil / empty / 1-300 bytes); hidden reason 0..7 (half of the paths visible); dedup flag both ways. Converted with Route.ToProto, proto.Marshal, proto.Unmarshal, RouteFromProtoRoute and compared with the generated specification. distinct_nontrivial = distinct routes that contain a BGP path with at least three of {AS_PATH of >=2 segments, CLUSTER_LIST, communities, large communities, unknown attributes} non-empty")
+		r.Rule("PRNG routes: IPv4/IPv6 prefix of any length (incl. 0.0.0.0, ::, v4-mapped, all-ones), 0-3 paths, 3/4 BGP and 1/4 static; every scalar from {0, max, small, power of two, random}; AS_PATH 0-3 segments (sequence/set, 0-4 ASNs), CLUSTER_LIST, communities, large communities, unknown attributes each nil / empty / 1-4 entries (unknown attribute values nil / empty / 1-300 bytes); hidden reason 0..7 (half of the paths visible); half of the multi-path routes hold a sibling of the first path that differs only in next hop / source / path identifier; dedup flag both ways. Converted with Route.ToProto, proto.Marshal, proto.Unmarshal, RouteFromProtoRoute and compared with the generated specification. distinct_nontrivial = distinct routes that contain a BGP path with at least three of {AS_PATH of >=2 segments, CLUSTER_LIST, communities, large communities, unknown attributes} non-empty")
 		r.Assume("nil and empty lists are the same value (the API cannot tell them apart)", "only BGP and static paths (the API's Type enum has no other value); next hop and source pointers are non-nil; AS_PATH segment types are sequence and set (the API carries one bool)", "'a hidden path is never reported as visible' is judged on the API message (Path.hidden_reason != HiddenReasonNone), before and after the wire; RouteFromProtoRoute does not read hidden_reason back at all, which the statement does not list among the preserved fields")
 		mk := func(c rcase) func(string, map[string]string, string) {
 			return func(clause string, f map[string]string, detail string) {
